@@ -180,19 +180,16 @@ def list_is_empty(pc, lst):
     return fl is not None and fl[1] == 0
 
 def bounded_above(pc, x, limit):
-    """the path condition holds a comparison of x with a literal that implies x <= limit"""
-    for a, t in pc:
-        if a[0] != 'bin' or len(a) != 4 or a[2] != x or a[3][0] != 'lit' or not isinstance(a[3][1], int):
-            continue
-        n = a[3][1]
-        if (a[1] == 'Le' and t and n <= limit) or (a[1] == 'Lt' and t and n <= limit + 1) or (a[1] == 'Gt' and not t and n <= limit) or (a[1] == 'Ge' and not t and n <= limit + 1):
-            return True
-    return False
+    """the path condition holds comparisons of x with literals that imply x <= limit (x <= n, x < n + 1, not x > n, x == n, n >= x ..)"""
+    hi = absx.St(pc=pc).tested_bounds(x)[1]
+    return hi is not None and hi <= limit
 
 def generic_id_ok(o):
     """The ID delivered for a messageID element whose content octets are *any*: the unsigned reader applied to exactly those octets -
     all of them, nothing cut off, nothing put in front -, narrowed to the 32-bit RequestId only under a range test (on this very
-    path) that keeps it within 0 .. maxInt, or by a checked conversion that succeeded.  (That the reader reads an unsigned number
+    path) that keeps it within 0 .. maxInt, or by a checked conversion that succeeded; or a number written out in the decoder on a
+    path whose condition says that the reader's value *is* that number (what must hold is that the delivered ID equals the number
+    the element denotes, not how it is spelled).  (That the reader reads an unsigned number
     exactly is C07's check_parse_uint; that the octets are non-negative and at most eight is what the literal ID trees decide.)"""
     t = o.id
     want = ('field', ('variant', ('call', PARSE_UINT, (G_ID_OCTETS,), None), 'Ok', 0), '1')
